@@ -807,6 +807,8 @@ val record_name : params -> bytes option
 
 val is_listlike : rty -> bool
 
+val keyed : bytes list -> bytes list -> bytes list
+
 val type_tostring : rty -> bytes
 
 type item =
@@ -862,9 +864,35 @@ val reserved_words : bytes list
 val parse_list :
   (bytes -> (rty * bytes) res) -> nat -> z -> bytes -> (rty list * bytes) res
 
+val parse_items :
+  (bytes -> (rty * bytes) res) -> nat -> z -> bytes -> (rty list * bytes) res
+
 val parse_fields :
   (bytes -> (rty * bytes) res) -> nat -> z -> bytes -> ((bytes * rty)
   list * bytes) res
+
+val parse_fielditems :
+  (bytes -> (rty * bytes) res) -> nat -> z -> bytes -> ((bytes * rty)
+  list * bytes) res
+
+val opt_branch : (bytes -> (rty * bytes) res) -> bytes -> (rty * bytes) res
+
+val brace_branch :
+  (bytes -> (rty * bytes) res) -> nat -> bytes -> (rty * bytes) res
+
+val paren_branch :
+  (bytes -> (rty * bytes) res) -> nat -> bytes -> (rty * bytes) res
+
+val num_branch : (bytes -> (rty * bytes) res) -> bytes -> (rty * bytes) res
+
+val plain_word :
+  (bytes -> (rty * bytes) res) -> bytes -> bytes -> (rty * bytes) res
+
+val bracket_branch :
+  (bytes -> (rty * bytes) res) -> nat -> bytes -> bytes -> (rty * bytes) res
+
+val word_branch :
+  (bytes -> (rty * bytes) res) -> nat -> bytes -> bytes -> (rty * bytes) res
 
 val parse_ty : nat -> bytes -> (rty * bytes) res
 
